@@ -2,8 +2,6 @@
 bin/gen-manifest turns this into MANIFEST.json."""
 
 NOT_APPLICABLE = {
-    "C12": "observational equivalence of the state cache with 'database overlaid with writes' (merge order, limit counting) is a relation between runtime values; no path-shaped necessary condition distinguishes a correct merge from an off-by-one",
-    "C14": "equality of reads/listings of two data structures after arbitrary commit sequences is value-level merge logic; nothing structural to decide",
     "C17": "equality of a computed Merkle root with an independent commitment is value-level; a self-consistent change of hashing leaves every structural rule intact",
     "C18": "reachability of stored tree nodes from the current root over all histories is a property of runtime data, not of code shape",
     "C23": "soundness relates the comparison verdict to validity of all payloads under two schemas; semantic, no structural necessary condition",
@@ -244,3 +242,15 @@ claim("C30", "table agreement from evaluated string constants and MIR string-mat
       "variant, knows every instruction's IDENT, maps it to the variant named after the instruction and produces every variant; every upper-case "
       "command string the decompiler can emit (including aliases) is a parser pattern; the generator handles every variant; each decompile() "
       "names its own IDENT. Value formatting/parsing round-trips and alias argument re-mapping are not decided.")
+
+claim("C12", "guard dominance (database read only on the untracked arm) + who-may-read table + variant exhaustiveness",
+      "Decides the precedence clause only: in Track point reads the database is consulted only when the entry is untracked and not transient "
+      "(an Occupied entry never reaches the database) and the fetched result is recorded; the database handle is read only by the audited Track "
+      "functions and never committed to; scans/drains consult is_new and skip shadowed database entries; tracked-value accessors have no "
+      "catch-all. Observational equivalence (merge order, limit counting, exact diffs) is not decided.")
+
+claim("C14", "variant-arm agreement on the overlay's read/list paths (root consulted only where the overlay is silent)",
+      "Decides the precedence clause only: the overlay's point read reaches the root database only on OverlayLookupResult::NotFound and a Reset "
+      "partition never yields NotFound; the listing of a Reset partition never touches the root while a Delta partition merges root and overlay "
+      "through OverlayingIterator; commit into the overlay matches every update variant. Equality of listings/cursors with 'base + commits' is "
+      "not decided.")
